@@ -1,0 +1,10 @@
+//go:build verif
+
+package generator
+
+// VerifNewStoppedScheduler returns a scheduler in the stopped state: workers
+// registered with it are kept but never started, so a parameter pool built on
+// it serves only what its persistence layer already holds (property C07).
+func VerifNewStoppedScheduler() *Scheduler {
+	return &Scheduler{state: stopped}
+}
